@@ -2,7 +2,8 @@
    Go: pkg/synchronization/endpoint/local/endpoint.go
          NewEndpoint (readOnly, maximumEntryCount), scan / Scan (full-scan path:
          watching disabled, so acceleration is never available), Stage
-         (guards, limit arithmetic, filtering loop, stageFromRoot), Supply,
+         (argument checks, then the read-only guard, scan guard, limit
+         arithmetic, filtering loop, stageFromRoot), Supply,
          Transition (guards, limit arithmetic; the disk work is delegated to
          core.Transition, whose outcome is an input of the model),
        pkg/synchronization/safety.go filteredPathsAreSubset.
@@ -168,12 +169,12 @@ Definition set_stage (e : ep) (flag : bool) (s : store) (pd : list path) : ep :=
 
 Definition stage (e : ep) (paths : list path) (digests : list digest) (picks : list nat)
   : ep * stage_res :=
-  if ro e then (e, StErr EReadOnly)
-  else if negb (Nat.eqb (List.length paths) (List.length digests)) then (e, StErr ELength)
+  if negb (Nat.eqb (List.length paths) (List.length digests)) then (e, StErr ELength)
   else match paths with
   | [] => (e, StOk [])
   | _ :: _ =>
-      if negb (since_stage e) then (e, StErr ENoScan)
+      if ro e then (e, StErr EReadOnly)
+      else if negb (since_stage e) then (e, StErr ENoScan)
       else if over_limit (maxc e) (lastc e) (List.length paths)
       then (set_stage e false (sto e) (pend e), StErr ELimit)
       else
